@@ -41,7 +41,7 @@ func stateJobs(quick bool) []gossipJob {
 			{P: P("S11", 200, 3, 3, 0, 1, false), Need: []string{"TruncatedDeltas"}},
 		}
 	}
-	d := sec(240)
+	d := sec(120)
 	return []gossipJob{
 		{P: P("S1", 165, 3, 4, 1, -1, false), Deadline: d, Need: []string{"RelayLearned", "TruncatedDeltas", "StaleDiscarded"}},
 		{P: P("S1", 170, 4, 5, 2, 2, false), Deadline: d, Need: []string{"RelayLearned", "TruncatedDeltas"}},
@@ -76,8 +76,8 @@ func init() {
 		run := evid.NewRun("C14", "model_checking")
 		jobs := stateJobs(!run.Thorough())
 		if run.Thorough() {
-			jobs = append(jobs, gossipJob{P: P4(3, 3, 0, 1, 2, 2, true), Deadline: sec(240), Need: []string{"LeavesSeen", "Unreachables", "Relearned"}})
-			jobs = append(jobs, gossipJob{P: P("S6", 165, 3, 3, 0, 1, true), Deadline: sec(240), Need: []string{"LeavesSeen"}})
+			jobs = append(jobs, gossipJob{P: P4(3, 3, 0, 1, 2, 2, true), Deadline: sec(120), Need: []string{"LeavesSeen", "Unreachables", "Relearned"}})
+			jobs = append(jobs, gossipJob{P: P("S6", 165, 3, 3, 0, 1, true), Deadline: sec(120), Need: []string{"LeavesSeen"}})
 		} else {
 			jobs = jobs[1:] // the largest job is left to C02 and the thorough tier
 			jobs = append(jobs, gossipJob{P: P4(3, 2, 0, 1, 1, 1, true), Need: []string{"LeavesSeen", "Unreachables", "Relearned"}})
@@ -114,7 +114,7 @@ func init() {
 				{P: P4(3, 1, 0, 0, 2, 2, false), Need: []string{"ClosureDiverged", "Unreachables"}},
 			}
 		} else {
-			d := sec(240)
+			d := sec(120)
 			jobs = []gossipJob{
 				{P: P("S1", 165, 3, 4, 1, -1, false), Deadline: d, Need: []string{"ClosureDiverged"}},
 				{P: P("S1", 170, 4, 5, 1, 2, false), Deadline: d, Need: []string{"ClosureDiverged"}},
@@ -161,7 +161,7 @@ func init() {
 				{P: gw.Params{Name: "S4", N: 3, Digests: 2, Holds: 0, Ops: 4}, Need: []string{"LeavesSeen"}},
 			}
 		} else {
-			d := sec(300)
+			d := sec(180)
 			jobs = []gossipJob{
 				{P: gw.Params{Name: "S4", N: 3, Digests: 3, Holds: 1, Ops: 4}, Deadline: d, Need: []string{"LeavesSeen"}},
 				{P: P4(3, 3, 1, 1, 2, 2, true), Deadline: d, Need: []string{"LeavesSeen", "Unreachables", "Relearned"}},
@@ -203,7 +203,7 @@ func init() {
 				{P: P("S6", 1400, 4, 3, 1, 1, false), Need: []string{"RelayLearned", "MarkersApplied"}},
 			}
 		} else {
-			d := sec(300)
+			d := sec(180)
 			jobs = []gossipJob{
 				{P: P("S6", 1400, 5, 4, 1, 2, false), Deadline: d, Need: []string{"RelayLearned", "MarkersApplied", "CompactOnlyDel"}},
 				{P: P("S6", 165, 4, 4, 1, 2, false), Deadline: d, Need: []string{"RelayLearned", "TruncatedDeltas"}},
